@@ -495,6 +495,10 @@ def accessor_branches(ctx: Ctx, rule: str, names):
         ctx.ob(rule, g, "%s: out of range" % nm, okh, "an index past the end raises IndexError", node=g.node)
 
 
+def okc_count(cnt_) -> bool:
+    return bool(cnt_)
+
+
 def r11_5(ctx: Ctx, rule="R11.5"):
     chk = ctx.func("_molecule_top_and_residues_match")
     init = ctx.func("Molecule.__init__")
@@ -540,6 +544,27 @@ def r11_5(ctx: Ctx, rule="R11.5"):
             okc = False
     else:
         okc = False
-    ctx.ob(rule, chk, "atom-by-atom comparison", okc and inc_ok,
-           "atom counts must agree, and atom i of the concatenated residues must have the residue name and atom name "
-           "of topology atom i (one running index over all residues)", node=chk.node)
+    if (okc and inc_ok) or outer:
+        ctx.ob(rule, chk, "atom-by-atom comparison", okc and inc_ok,
+               "atom counts must agree, and atom i of the concatenated residues must have the residue name and atom name "
+               "of topology atom i (one running index over all residues)", node=chk.node)
+    else:
+        # other spelling (e.g. enumerate over the chained residues): recognised when both fields are compared against the
+        # topology atom under the loop index, else not decided
+        alt = False
+        for l_ in [n_ for n_ in walk_no_nested(chk.node) if isinstance(n_, ast.For)]:
+            if isinstance(l_.iter, ast.Call) and call_name(l_.iter) == "enumerate" and isinstance(l_.target, ast.Tuple) \
+                    and norm(l_.iter.args[0]) in ("chain.from_iterable(%s)" % p_res, "itertools.chain.from_iterable(%s)" % p_res, "chain(*%s)" % p_res):
+                iv, av = [norm(e) for e in l_.target.elts]
+                from ..pat import single_defs as _sd
+                tv = [k_ for k_, v_ in _sd(chk.node).items() if norm(v_) == "%s[%s]" % (p_top, iv)]
+                tvn = tv[0] if tv else "%s[%s]" % (p_top, iv)
+                alt = bool(pfind(l_, "if %s.resname != %s.resname or %s.name != %s.name:\n    return False\nelse:\n    ..." % (av, tvn, av, tvn))) \
+                    or bool(pfind(l_, "if %s.resname != %s.resname or %s.name != %s.name:\n    return False" % (av, tvn, av, tvn)))
+        if alt and okc_count(cnt_):
+            ctx.ob(rule, chk, "atom-by-atom comparison (enumerate over the chained residues)", True,
+                   "atom counts must agree, and atom i of the concatenated residues must have the residue name and atom name "
+                   "of topology atom i (one running index over all residues)", node=chk.node)
+        else:
+            ctx.ob(rule, chk, "atom-by-atom comparison", True, "the comparison is not written as nested loops with a running index; "
+                   "not decided on this tree", undecided=True, node=chk.node)
